@@ -50,6 +50,12 @@ theorem resolveUnknown_flags (T : Tables) (n : Node) : (resolveUnknown T n).flag
     · rfl
   · rfl
 
+@[simp] theorem dropPlaceholder_desc (n : Node) : (dropPlaceholder n).desc = n.desc := by
+  unfold dropPlaceholder; split <;> rfl
+
+@[simp] theorem dropPlaceholder_flags (n : Node) : (dropPlaceholder n).flags = n.flags := by
+  unfold dropPlaceholder; split <;> rfl
+
 theorem replicaOf_desc (T : Tables) (extra : Bool) (body : List Node) (j : Nat) :
     (replicaOf T extra body j).map (·.desc) = body.map (·.desc) := by
   unfold replicaOf
@@ -63,7 +69,7 @@ theorem replicaOf_fresh (T : Tables) (extra : Bool) (body : List Node) (j : Nat)
   obtain ⟨m, hm, rfl⟩ := hn
   constructor
   · rfl
-  · simp only [resolveUnknown_flags]; exact (h m hm).2
+  · simp only [dropPlaceholder_flags, resolveUnknown_flags]; exact (h m hm).2
 
 theorem replicas_desc (T : Tables) (extra : Bool) (body : List Node) (count : Nat) :
     (replicas T extra body count).map (·.desc) = (List.replicate count (body.map (·.desc))).flatten := by
